@@ -58,19 +58,20 @@ def _observe(tid: int, case: dict, checker, modname) -> list[dict]:
             # first return path of show_error: recorded for the caller, nothing decided yet
             lines.append({"tid": tid, "event": "Caught", "code": str(code)})
             continue
-        if code not in ABSTRACT or ev["lineno"] is None:
-            raise core.MachineryError(f"realisation raised unexpected diagnostic {ev} for\n{src}")
+        if ev["lineno"] is None:
+            continue            # cannot be replayed; if it is reported, the output below carries it
+        # a code the file does not raise by construction (never seen on the unchanged tree) is handed to TLC under its
+        # own name: the chain is replayed for it and, if it is reported, OutputOK rejects the output
         lines.append(
-            {"tid": tid, "event": "ShowError", "code": ABSTRACT[code], "lineno": ev["lineno"], "decision": ev["decision"]}
+            {"tid": tid, "event": "ShowError", "code": ABSTRACT.get(code, f"x:{code}"), "lineno": ev["lineno"],
+             "decision": ev["decision"]}
         )
     out = []
     for code, lineno, _col in pyz.brief(fails):
         if code in META:
             out.append([code, lineno])
-        elif code in ABSTRACT:
-            out.append([ABSTRACT[code], lineno])
         else:
-            raise core.MachineryError(f"realisation raised unexpected failure {code} for\n{src}")
+            out.append([ABSTRACT.get(code, f"x:{code}"), lineno or 0])
     lines.append({"tid": tid, "event": "End", "out": out})
     return lines
 
@@ -351,7 +352,7 @@ def run(check: core.Check) -> None:
         "override x other-module override) for a default-on and a default-off code (quick; + unused_ignore thorough); "
         "catch = every flat file of <=2 (quick) / 3 (thorough) lines over diags {c1,c4,c2,c1+c4} x comments "
         "{bare,c4,c3,multi} and every extension by <=2 lines of the three `with assert_error():` block heads, x requests "
-        "over {c4, unused_ignore}; structure + command line = TLC simulation of files of 3..8 lines over 12 shapes, 14 "
+        "over {c4, unused_ignore}; structure + command line = TLC simulation of files of 3..8 lines over 14 shapes, 14 "
         "diagnostic sets, 8 comment forms x requests over all 7 codes, replayed through main() two files per run; "
         "non-trivial = has both a diagnostic and an ignore comment"
     )
